@@ -672,7 +672,7 @@ PHASE_PATTERNS = [
     ("carry-position", r"^\(tablepos \+= \(strides\[\(i - 1\)\] - \(decomposedposition\[i\] \* strides\[i\]\)\)\)$"),
     ("carry-reset", r"^\(decomposedposition\[i\] = 0\)$"),
     ("refresh", r"^\(basis_tree\[\(j \+ 1\)\] = \(basis_tree\[j\] \* localbasis\[j\]\[decomposedposition\[j\]\]\)\)$"),
-    ("carry-loop", r"^for\(i = \(NDIM - 2\); \(decomposedposition\[i\] > ORD\((i|\*)\)\); \(i--\)\)$"),
+    ("carry-loop", r"^for\(i = \(NDIM - 2\); \(ORD\((i|\*)\) < decomposedposition\[i\]\); \(i--\)\)$"),
     ("refresh-loop", r"^for\(j = i; \(j < \(NDIM - 1\)\); \(j\+\+\)\)$"),
     ("seed-loop", r"^for\(n = 0; \(n < NDIM\); \(n\+\+\)\)$"),
     ("chunk-loop", r"^for\(n = 0; \(n < \(NDIM - 1\)\); \(n\+\+\)\)$"),
@@ -913,8 +913,8 @@ def cl4(P, C):
                         if f.k(a) == "IfStmt":
                             conds.append((f.render(f.nodes[a]["cond"]).replace(" ", ""), f.nodes[a]["then"] in [i] + list(f.ancestors(i))))
                     lanes[(idx, tuple(conds))] = f.render(ap[1]).replace(" ", "")
-            ok = lanes.get(("0", ())) == "valbasis[i]" and lanes.get(("j", (("(j==(1+n))", True),))) == "gradbasis[i]" and \
-                lanes.get(("j", (("(j==(1+n))", False),))) == "valbasis[i]" and len(lanes) == 3
+            ok = lanes.get(("0", ())) == "valbasis[i]" and lanes.get(("j", (("(j==(n+1))", True),))) == "gradbasis[i]" and \
+                lanes.get(("j", (("(j==(n+1))", False),))) == "valbasis[i]" and len(lanes) == 3
             C.ob("CL-4", name, "lane-wiring", ok, f.where(), "lane 0 <- value basis, lane 1+n <- derivative basis, other lanes <- value basis: %s" % lanes)
 
 
